@@ -150,4 +150,72 @@ theorem C17_sys_load_events_never_raise {ids : List τ} (numnodes maxfail : Nat)
       cases ev0 <;> simp only [fixRq] at hloop <;> simp only [hloop]
     exact ⟨_, this⟩
 
+/-- **`workerfinished` of a worker that ended with a keyboard interrupt / collection error (exit status 2), with a stop or
+    fail-fast request, or that the scheduler does not know** never raises.  (Partial: the remaining case — a registered worker
+    that finished normally, `assert not crashitem` — needs "nothing is sent behind the shutdown signal" at the level of the whole
+    system and is validated by the simulation, not proved.) -/
+theorem C17_sys_load_workerfinished_never_raises_partial (numnodes maxfail : Nat) (msc maxRestart : Option Int) (idsOf : Nat → List τ)
+    {st : LState τ} {W : List Nat} {g : Ghost}
+    (h : ReachB idsOf (init loadI (Load.init numnodes msc) numnodes maxfail maxRestart idsOf) st W g)
+    {k n x : Nat} {sf ss : Option String} {w : Wk τ} {rest : List (Ctl.Event τ)} (hw : st.wk[k]? = some w)
+    (hp : w.posted = .workerfinished n x sf ss :: rest)
+    (hcase : x = 2 ∨ sf.isSome = true ∨ ss.isSome = true ∨ n ∉ AList.keys st.ctl.sched.node2pending)
+    (hnf : Ctl.sessionFinished st.ctl = false) (rq : Bool) :
+    ∃ st', step loadI idsOf st (.ctl k rq) = .ok st' := by
+  obtain ⟨i1, _⟩ := reach_inv11 numnodes maxfail msc maxRestart idsOf h.reachG.reach
+  have hso := reachB_schedOk numnodes maxfail msc maxRestart idsOf h
+  have wi := i1.wk hw
+  have hown := wi.ownP (.workerfinished n x sf ss) (by rw [hp]; simp)
+  have hnk : n = k := by simpa [Own] using hown
+  subst hnk
+  have hact : n ∈ st.ctl.active := by
+    apply Classical.byContradiction
+    intro hna
+    have := wi.inactive hna
+    rw [hp] at this; cases this
+  have hnem : st.ctl.active.isEmpty = false := by
+    cases hh : st.ctl.active with
+    | nil => rw [hh] at hact; cases hact
+    | cons a t => rfl
+  have hhandle : ∃ c1, handle loadI st.ctl (.workerfinished n x sf ss) = .ok c1 := by
+    simp only [handle]
+    unfold workerfinished
+    split
+    · -- exit status 2: treated as a lost worker
+      simp only
+      refine errordown_total (g := g) ?_ false ?_
+      · rw [(triggerShutdown_fields loadI _).2.1]; exact hso
+      · rw [(triggerShutdown_fields loadI _).2.2.1]; exact hact
+    · rename_i hx
+      simp only
+      split
+      · apply removeActive_ok
+        split <;> exact hact
+      · rename_i hnone
+        split
+        · rename_i hmem
+          exfalso
+          rcases hcase with h' | h' | h' | h'
+          · exact hx h'
+          · cases sf with
+            | none => cases h'
+            | some r => simp at hnone
+          · cases sf with
+            | some r => simp at hnone
+            | none =>
+              cases ss with
+              | none => cases h'
+              | some r => simp at hnone
+          · exact h' hmem
+        · exact removeActive_ok hact
+  obtain ⟨c1, hc1⟩ := hhandle
+  have hloop : loopOnce loadI st.ctl (.workerfinished n x sf ss) = .ok (afterHandler loadI c1) := by
+    simp only [loopOnce, hnem, Bool.false_eq_true, ↓reduceIte, hc1, Except.map]
+  have : step loadI idsOf st (.ctl n rq) = .ok
+      { ctl := afterHandler loadI c1,
+        wk := route (spawn idsOf (st.wk.set n { w with posted := rest }) (afterHandler loadI c1).nextId)
+          ((afterHandler loadI c1).env.outs.drop st.ctl.env.outs.length) } := by
+    simp only [Sys.step, ctlStep, hnf, Bool.false_eq_true, ↓reduceIte, hnem, hw, hp, hloop]
+  exact ⟨_, this⟩
+
 end Xdist.Sys
